@@ -8,7 +8,9 @@ def nontrivial(c):
         p = l.split(" ")
         if p[0] != "op":
             continue
-        if p[1] == "get" and len(p) > 3:
+        if p[1] == "cget":
+            ok = True
+        elif p[1] == "get" and len(p) > 3:
             w, e = p[2], p[3]
             if (w, e) not in built:
                 built.add((w, e))
@@ -35,8 +37,10 @@ SPEC = dict(
     rule="cases = 1-3 generated rules configurations (top-level and rules-based environments, all five dynsampler-backed "
          "sampler types plus deterministic, definitions that differ from one another in exactly one parameter, environment "
          "names with ':' and spaces, field names with spaces) x 1-4 simulated workers x a history of get/peers/peersfail/"
-         "setcfg/clear/wreload on the real SamplerFactory; non-trivial = two different workers build a sampler for the same "
-         "sampler key, or a sampler is built after a ClearDynsamplers; distinct by transcript hash",
+         "setcfg/clear/wreload/cget on the real SamplerFactory (cget = 2-8 goroutines released by a barrier ask the factory "
+         "for the same sampler key at once, usually right after a clear, with a Metrics.Register that yields and sleeps 200us, "
+         "GOMAXPROCS>=8); non-trivial = two different workers build a sampler for the same sampler key (sequentially or "
+         "concurrently), or a sampler is built after a ClearDynsamplers; distinct by transcript hash",
     trusted_base=["the harness' simulated worker cache (the three lines of makeDecision that consult datasetSamplers) "
                   "and its split of reloadConfigs into `clear` + one `wreload` per worker",
                   "pointer identity of the dynsampler behind a sampler = identity of its rate-tracking state",
@@ -44,7 +48,7 @@ SPEC = dict(
     manifest=dict(
         text="Lean theorems over all configurations and all histories of lazy sampler creation on any worker, peer changes, "
              "config swaps, registry clears and per-worker cache clears: workers_share (same prefix+definition => same "
-             "instance, when keys determine sampler type), reload_clears, isolation (full statement REFUTED by machine-checked "
+             "instance, when keys determine sampler type), workers_share_concurrent (every order of simultaneous factory calls), reload_clears, isolation (full statement REFUTED by machine-checked "
              "witnesses in three classes + a cross-type one; isolation_partial proved under: environment names without ':', "
              "field names non-empty without spaces). Model tied to sample/sample.go by replaying generated histories on the "
              "real SamplerFactory (registry keys, instance identity per sampler slot, goals) and comparing every observation.",
@@ -54,7 +58,8 @@ SPEC = dict(
                   "model/implementation correspondence check",
     ),
     assumptions=["each SamplerFactory method is atomic (it holds the factory mutex); worker cache lookups happen on the worker's own goroutine",
-                 "field names are non-empty (an empty field name makes config.GetKeyFields panic at sampler creation)",
+                 "concurrent creation is observed on sampled schedules only (barrier + a yielding Metrics.Register); the theorem "
+                 "workers_share_concurrent covers every order of the atomic factory calls, atomicity itself is what the cget runs test",
                  "every rules configuration has a __default__ entry (otherwise createSampler calls os.Exit)",
                  "strings are compared as sequences of Unicode code points (equals Go's byte order on valid UTF-8)"],
 )
